@@ -537,11 +537,13 @@ pub struct SourceRng {
     pub calls: usize,
     /// bytes handed out by fill_bytes / try_fill_bytes only
     pub filled: Vec<u8>,
+    /// a failing call scribbles over part of the caller's buffer (true) or leaves it untouched
+    pub scribble: bool,
 }
 
 impl SourceRng {
     pub fn new(data: Vec<u8>) -> Self {
-        SourceRng { data, pos: 0, log: vec![], fail_from: None, token: 0, calls: 0, filled: vec![] }
+        SourceRng { data, pos: 0, log: vec![], fail_from: None, token: 0, calls: 0, filled: vec![], scribble: true }
     }
     fn take(&mut self, n: usize) -> Vec<u8> {
         let mut out = Vec::with_capacity(n);
@@ -606,9 +608,11 @@ impl TryRngCore for FallibleSource {
             if self.0.calls >= f {
                 self.0.calls += 1;
                 // a failing source may have scribbled over part of the buffer
-                for (i, b) in dest.iter_mut().enumerate() {
-                    if i % 3 == 0 {
-                        *b = 0x5a;
+                if self.0.scribble {
+                    for (i, b) in dest.iter_mut().enumerate() {
+                        if i % 3 == 0 {
+                            *b = 0x5a;
+                        }
                     }
                 }
                 return Err(SrcError(self.0.token));
